@@ -847,3 +847,282 @@ Proof.
   destruct (bottom_up f); unfold slices_opposite, slices_matching; cbn [flat_map fst snd app];
     rewrite ?Lo, ?Hi; reflexivity.
 Qed.
+
+(* ------------------------------------------------------------------ *)
+(* the cascade never raises on a well-formed pyramid                    *)
+
+Lemma update_quadrant_total u c b k oy ox by_ bx :
+  0 < k -> ih b = 2 * k -> iw b = 2 * k ->
+  slice_view (2 * k) by_ = Some (mkView oy 1 k) -> slice_view (2 * k) bx = Some (mkView ox 1 k) ->
+  ih c = k -> iw c = k -> imode b = maskable (imode c) ->
+  exists b', update_into_gen u c b full_slice full_slice by_ bx = Some b' /\
+             ih b' = 2 * k /\ iw b' = 2 * k /\ imode b' = imode b.
+Proof.
+  intros Hk Hh Hw Sy Sx Ch Cw Em. unfold update_into_gen.
+  rewrite (rects_defined c b full_slice full_slice by_ bx (mkView 0 1 k) (mkView 0 1 k) (mkView oy 1 k) (mkView ox 1 k)).
+  - eexists. split; [reflexivity|]. cbn [ih iw imode]. auto.
+  - rewrite Ch. apply slice_view_full; lia.
+  - rewrite Cw. apply slice_view_full; lia.
+  - rewrite Hh; exact Sy.
+  - rewrite Hw; exact Sx.
+  - reflexivity.
+  - reflexivity.
+  - exact Em.
+Qed.
+
+Definition entry_good (k : Z) (bm : mode) (e : entry) : Prop :=
+  match e with
+  | ((oy, ox), ((sy, sx), oc)) =>
+      slice_view (2 * k) sy = Some (mkView oy 1 k) /\ slice_view (2 * k) sx = Some (mkView ox 1 k) /\
+      match oc with Some c => good_img k bm c | None => True end
+  end.
+
+Lemma update_all_total u k bm : forall (l : list entry) b,
+  0 < k -> ih b = 2 * k -> iw b = 2 * k -> imode b = bm ->
+  Forall (entry_good k bm) l ->
+  exists bf, update_all u b (map snd l) = Some bf /\ ih bf = 2 * k /\ iw bf = 2 * k /\ imode bf = bm.
+Proof.
+  induction l as [|e l IH]; intros b Hk Hh Hw Hm HF.
+  - exists b. cbn. auto.
+  - inversion HF as [|e' l' He Hl]; subst.
+    destruct e as [[oy ox] [[sy sx] [c|]]]; cbn [map snd update_all].
+    + cbn [entry_good] in He. destruct He as (Sy & Sx & Gh & Gw & Gm).
+      destruct (update_quadrant_total u c b k oy ox sy sx Hk Hh Hw Sy Sx Gh Gw ltac:(congruence))
+        as (b' & E & A & B & C).
+      rewrite E. apply IH; auto; congruence.
+    + apply IH; auto.
+Qed.
+
+Lemma merge_tiles_total u f k bm c0 c1 c2 c3 :
+  0 < k -> maskable bm = bm ->
+  (forall ch, In (Some ch) [c0; c1; c2; c3] -> good_img k bm ch) ->
+  merge_tiles_gen u f k [c0; c1; c2; c3] = Some None \/
+  exists m, merge_tiles_gen u f k [c0; c1; c2; c3] = Some (Some m) /\ good_img k bm m /\ imode m = bm.
+Proof.
+  intros Hk Hbm Hg. unfold merge_tiles_gen.
+  destruct (first_present [c0; c1; c2; c3]) as [ch0|] eqn:EF; [|left; reflexivity].
+  right. fold (b_init (imode ch0) k).
+  pose proof (Hg ch0 (first_present_in _ _ EF)) as (_ & _ & G0).
+  pose proof (sl_lo_view k Hk) as Lo. pose proof (sl_hi_view k Hk) as Hi.
+  assert (D : forall oc, In oc [c0; c1; c2; c3] -> match oc with Some c => good_img k bm c | None => True end).
+  { intros [c|] Hin; [apply Hg; exact Hin | exact I]. }
+  assert (T : exists bf, update_all u (b_init (imode ch0) k) (combine (slices_for f k) [c0; c1; c2; c3]) = Some bf /\
+                         ih bf = 2 * k /\ iw bf = 2 * k /\ imode bf = bm).
+  { unfold slices_for. destruct (bottom_up f).
+    - unfold slices_opposite; cbn [combine].
+      change [(sl_hi k, sl_lo k, c0); (sl_hi k, sl_hi k, c1); (sl_lo k, sl_lo k, c2); (sl_lo k, sl_hi k, c3)]
+        with (map snd ([((k, 0), ((sl_hi k, sl_lo k), c0)); ((k, k), ((sl_hi k, sl_hi k), c1));
+                        ((0, 0), ((sl_lo k, sl_lo k), c2)); ((0, k), ((sl_lo k, sl_hi k), c3))] : list entry)).
+      apply (update_all_total u k bm); try reflexivity; try exact Hk.
+      + unfold b_init; cbn [clear make_maskable_buffer imode]. exact G0.
+      + repeat constructor; cbn [entry_good]; repeat split; try assumption; apply D; cbn; auto.
+    - unfold slices_matching; cbn [combine].
+      change [(sl_lo k, sl_lo k, c0); (sl_lo k, sl_hi k, c1); (sl_hi k, sl_lo k, c2); (sl_hi k, sl_hi k, c3)]
+        with (map snd ([((0, 0), ((sl_lo k, sl_lo k), c0)); ((0, k), ((sl_lo k, sl_hi k), c1));
+                        ((k, 0), ((sl_hi k, sl_lo k), c2)); ((k, k), ((sl_hi k, sl_hi k), c3))] : list entry)).
+      apply (update_all_total u k bm); try reflexivity; try exact Hk.
+      + unfold b_init; cbn [clear make_maskable_buffer imode]. exact G0.
+      + repeat constructor; cbn [entry_good]; repeat split; try assumption; apply D; cbn; auto. }
+  destruct T as (bf & E & A & B & C). rewrite E.
+  eexists. split; [reflexivity|].
+  unfold good_img; cbn [averaging_merger ih iw imode].
+  rewrite A, B, C, (Z.mul_comm 2 k), Z.div_mul by lia. auto.
+Qed.
+
+Lemma decode_good k bm orc d : good_file k bm d -> maskable bm = bm -> good_img k bm (decode orc d).
+Proof.
+  destruct d as [im|h w]; cbn [good_file decode]; [auto|].
+  intros (-> & -> & ->) _. unfold good_img, lossy_img; cbn. auto.
+Qed.
+
+Lemma walk_callback_total u dflt k orc bm st p :
+  0 < k -> maskable bm = bm -> storable dflt bm -> good_store dflt k bm st ->
+  exists st', walk_callback_gen u dflt k orc st p = Some st' /\ good_store dflt k bm st'.
+Proof.
+  intros Hk Hbm Hs Hg. unfold walk_callback_gen.
+  assert (E : map (fun c => rres_image (orc c) (read_image dflt st c DNone None None)) (children p)
+              = child_files orc dflt st p).
+  { unfold child_files. apply map_ext. intros c0. apply read_none_image. }
+  rewrite E. unfold child_files, children. cbn [map].
+  match goal with |- context [merge_tiles_gen u dflt k [?a; ?b; ?c; ?d]] =>
+    destruct (merge_tiles_total u dflt k bm a b c d Hk Hbm) as [En|(m & Em & Gm & Mm)] end.
+  - intros ch Hin. cbn [In] in Hin.
+    destruct Hin as [H|[H|[H|[H|[]]]]];
+      match type of H with option_map _ (st ?q dflt) = _ =>
+        destruct (st q dflt) as [d|] eqn:Ed; [|discriminate]; cbn in H; injection H as <-;
+        apply decode_good; [apply (Hg q d Ed) | exact Hbm] end.
+  - rewrite En. exists st. auto.
+  - rewrite Em. unfold write_image. cbn [or_default].
+    destruct (is_completely_masked m).
+    + eexists. split; [reflexivity|]. intros q d. unfold st_set.
+      destruct (pos_eqb q p && fmt_eqb dflt dflt); [discriminate|apply Hg].
+    + unfold encode. rewrite Mm.
+      destruct Hs as [Hh|[-> ->]].
+      * rewrite Hh. eexists. split; [reflexivity|]. intros q d. unfold st_set.
+        destruct (pos_eqb q p && fmt_eqb dflt dflt); [|apply Hg].
+        intros H; injection H as <-. exact Gm.
+      * cbn [holds]. eexists. split; [reflexivity|]. intros q d. unfold st_set.
+        destruct (pos_eqb q p && fmt_eqb Jpg Jpg); [|apply Hg].
+        intros H; injection H as <-. destruct Gm as (A & B & _). cbn [good_file]. auto.
+Qed.
+
+Lemma cascade_defined_lemma u dflt k orc bm : forall order st,
+  0 < k -> maskable bm = bm -> storable dflt bm -> good_store dflt k bm st ->
+  exists st', cascade_gen u dflt k orc st order = Some st' /\ good_store dflt k bm st'.
+Proof.
+  induction order as [|p rest IH]; intros st Hk Hbm Hs Hg.
+  - exists st. cbn. auto.
+  - cbn [cascade_gen].
+    destruct (walk_callback_total u dflt k orc bm st p Hk Hbm Hs Hg) as (st1 & E & G1).
+    rewrite E. apply IH; auto.
+Qed.
+
+(* ------------------------------------------------------------------ *)
+(* RGB children: the merged tile is never completely masked (jpg existence) *)
+
+Lemma quot_alpha a1 a2 a3 a4 :
+  (a1 = 0 \/ a1 = 255) -> (a2 = 0 \/ a2 = 255) -> (a3 = 0 \/ a3 = 255) -> (a4 = 0 \/ a4 = 255) ->
+  (a1 = 255 \/ a2 = 255 \/ a3 = 255 \/ a4 = 255) -> (iavg a1 a2 a3 a4 =? 0) = false.
+Proof.
+  intros [->| ->] [->| ->] [->| ->] [->| ->] H; try reflexivity.
+  exfalso. destruct H as [H|[H|[H|H]]]; discriminate.
+Qed.
+
+Definition rgba01 (p : pixel) : Prop := exists x y z a, p = PxC x y z a /\ (a = 0 \/ a = 255).
+
+Lemma block_alpha M i j :
+  (forall r c, rgba01 (M r c)) ->
+  (exists r c, (r = 2 * i \/ r = 2 * i + 1) /\ (c = 2 * j \/ c = 2 * j + 1) /\
+               exists x y z, M r c = PxC x y z 255) ->
+  alpha0 (block_avg M i j) = false.
+Proof.
+  intros HM (r & c & Hr & Hc & x & y & z & E).
+  destruct (HM (2 * i) (2 * j)) as (x1 & y1 & z1 & a1 & E1 & A1).
+  destruct (HM (2 * i) (2 * j + 1)) as (x2 & y2 & z2 & a2 & E2 & A2).
+  destruct (HM (2 * i + 1) (2 * j)) as (x3 & y3 & z3 & a3 & E3 & A3).
+  destruct (HM (2 * i + 1) (2 * j + 1)) as (x4 & y4 & z4 & a4 & E4 & A4).
+  unfold block_avg. rewrite E1, E2, E3, E4. cbn [avg4 alpha0].
+  apply quot_alpha; try assumption.
+  destruct Hr as [-> | ->], Hc as [-> | ->]; rewrite E in *.
+  - left. congruence.
+  - right; left. congruence.
+  - right; right; left. congruence.
+  - right; right; right. congruence.
+Qed.
+
+Definition rgb_children (cs : list (option img)) : Prop :=
+  forall ch, In (Some ch) cs -> imode ch = RGB /\ img_ok ch /\ 0 <= ih ch /\ 0 <= iw ch.
+
+Lemma mosaic_rgb u bu k m0 cs r c :
+  (forall s o, u RGB s o = fill_px RGB s) -> rgb_children cs -> maskable m0 = RGBA ->
+  rgba01 (mosaic_of (mosaic_val_gen u) bu k m0 cs r c) /\
+  (nth (Z.to_nat (c / k + 2 * (r / k))) cs None <> None ->
+   exists x y z, mosaic_of (mosaic_val_gen u) bu k m0 cs r c = PxC x y z 255).
+Proof.
+  intros Hu Hc Hm. unfold mosaic_of.
+  destruct (nth (Z.to_nat (c / k + 2 * (r / k))) cs None) as [ch|] eqn:E.
+  - destruct (Hc ch (nth_some_in _ _ _ E)) as (Em & Hok & _).
+    unfold mosaic_val_gen. rewrite Em, Hu.
+    assert (Hp : px_ok RGB (disp bu ch (r mod k) (c mod k)) = true).
+    { unfold disp. rewrite <- Em. destruct bu; apply Hok. }
+    destruct (disp bu ch (r mod k) (c mod k)); try discriminate. cbn [fill_px].
+    split; [exists r0, g, b, 255; auto | intros _; eauto].
+  - split; [|intros H; contradiction].
+    exists 0, 0, 0, 0. split; [|auto]. destruct m0; try discriminate; reflexivity.
+Qed.
+
+Lemma rgb_merge_not_masked u f k c0 c1 c2 c3 m :
+  0 < k -> (forall s o, u RGB s o = fill_px RGB s) -> rgb_children [c0; c1; c2; c3] ->
+  merge_tiles_gen u f k [c0; c1; c2; c3] = Some (Some m) ->
+  is_completely_masked m = false.
+Proof.
+  intros Hk Hu Hc H.
+  assert (Hd : dims_ok [c0; c1; c2; c3]).
+  { intros ch Hin. destruct (Hc ch Hin) as (_ & _ & A & B). auto. }
+  destruct (merge_pixel_gen u f k c0 c1 c2 c3 m Hk Hd H) as (ch0 & EF & Mh & Mw & Mm & _ & F).
+  pose proof (first_present_in _ _ EF) as Hin0.
+  destruct (Hc ch0 Hin0) as (Em0 & _).
+  rewrite Em0 in Mm. cbn [maskable] in Mm.
+  destruct (is_completely_masked m) eqn:EM; [|reflexivity]. exfalso.
+  unfold is_completely_masked in EM. rewrite Mm in EM.
+  rewrite all_px_spec in EM. rewrite Mh, Mw in EM.
+  (* index of the present child *)
+  destruct (In_nth _ _ None Hin0) as (n & Hn & En). cbn [length] in Hn.
+  set (cx := Z.of_nat n mod 2). set (cy := Z.of_nat n / 2).
+  assert (Hcx : 0 <= cx < 2) by (unfold cx; lia).
+  assert (Hcy : 0 <= cy < 2) by (unfold cy; lia).
+  set (r0 := cy * k). set (q0 := cx * k).
+  set (i := r0 / 2). set (j := q0 / 2).
+  assert (Hi : 0 <= i < k) by (unfold i, r0; nia).
+  assert (Hj : 0 <= j < k) by (unfold j, q0; nia).
+  set (M := mosaic_of (mosaic_val_gen u) (bottom_up f) k (imode ch0) [c0; c1; c2; c3]).
+  assert (HM : forall r c, rgba01 (M r c)).
+  { intros r c. apply (mosaic_rgb u (bottom_up f) k (imode ch0) _ r c Hu Hc). rewrite Em0; reflexivity. }
+  assert (Hidx : Z.to_nat (q0 / k + 2 * (r0 / k)) = n).
+  { unfold q0, r0. rewrite !Z.div_mul by lia. unfold cx, cy. lia. }
+  assert (Hpres : exists x y z, M r0 q0 = PxC x y z 255).
+  { apply (mosaic_rgb u (bottom_up f) k (imode ch0) _ r0 q0 Hu Hc); [rewrite Em0; reflexivity|].
+    rewrite Hidx, En. discriminate. }
+  assert (Hblock : alpha0 (block_avg M i j) = false).
+  { apply block_alpha; [exact HM|]. exists r0, q0. split; [unfold i; lia|]. split; [unfold j; lia|]. exact Hpres. }
+  subst M. rewrite <- (F i j Hi Hj) in Hblock. unfold disp in Hblock. rewrite Mh in Hblock.
+  destruct (bottom_up f).
+  - rewrite (EM (k - 1 - i) j) in Hblock by lia. discriminate.
+  - rewrite (EM i j) in Hblock by lia. discriminate.
+Qed.
+
+Lemma lossy_rgb orc h w :
+  0 <= h -> 0 <= w ->
+  imode (lossy_img orc h w) = RGB /\ img_ok (lossy_img orc h w) /\
+  0 <= ih (lossy_img orc h w) /\ 0 <= iw (lossy_img orc h w).
+Proof.
+  intros Hh Hw. cbn [lossy_img imode ih iw]. repeat split; auto.
+  intros r c. cbn [lossy_img imode ipx]. destruct (orc r c); reflexivity.
+Qed.
+
+Lemma lossy_children_rgb orc st p :
+  (forall c d, In c (children p) -> st c Jpg = Some d -> exists h w, d = FLossy h w /\ 0 <= h /\ 0 <= w) ->
+  rgb_children (child_files orc Jpg st p).
+Proof.
+  intros Hl ch Hin. unfold child_files in Hin. apply in_map_iff in Hin. destruct Hin as (c & E & Hc).
+  destruct (st c Jpg) as [d|] eqn:Ed; [|discriminate]. cbn in E. injection E as <-.
+  destruct (Hl c d Hc Ed) as (h & w & -> & Hh & Hw). cbn [decode]. apply lossy_rgb; assumption.
+Qed.
+
+Lemma jpg_exists_lemma u k orc st p st' :
+  0 < k -> (forall s o, u RGB s o = fill_px RGB s) ->
+  (forall c d, In c (children p) -> st c Jpg = Some d -> exists h w, d = FLossy h w /\ 0 <= h /\ 0 <= w) ->
+  st p Jpg = None ->
+  walk_callback_gen u Jpg k orc st p = Some st' ->
+  (st' p Jpg <> None <-> exists c, In c (children p) /\ st c Jpg <> None).
+Proof.
+  intros Hk Hu Hl Hp H.
+  destruct (merge_exists_lemma u Jpg k orc st p st' H) as (A & B).
+  assert (Dec : {forall c, In c (children p) -> st c Jpg = None} + {exists c, In c (children p) /\ st c Jpg <> None}).
+  { unfold children. cbn [In].
+    match goal with |- {forall c, ?a = c \/ ?b = c \/ ?cc = c \/ ?d = c \/ False -> _} + {_} =>
+      destruct (st a Jpg) eqn:Ea; [right; exists a; split; [auto|congruence]|];
+      destruct (st b Jpg) eqn:Eb; [right; exists b; split; [auto|congruence]|];
+      destruct (st cc Jpg) eqn:Ec; [right; exists cc; split; [auto|congruence]|];
+      destruct (st d Jpg) eqn:Ed; [right; exists d; split; [auto 6|congruence]|] end.
+    left. intros c [<-|[<-|[<-|[<-|[]]]]]; assumption. }
+  destruct Dec as [Hall|Hex].
+  - rewrite (A Hall). split; [intros X; contradiction|].
+    intros (c & Hc & Hn). rewrite (Hall c Hc) in Hn. contradiction.
+  - split; [intros _; exact Hex|]. intros _.
+    destruct (B Hex) as (m & Em & Enc & Eff).
+    rewrite Eff, pos_eqb_refl. cbn [fmt_eqb andb].
+    assert (Hm : is_completely_masked m = false).
+    { pose proof (lossy_children_rgb orc st p Hl) as Hrgb.
+      unfold child_files, children in Em, Hrgb. cbn [map] in Em, Hrgb.
+      exact (rgb_merge_not_masked u Jpg k _ _ _ _ m Hk Hu Hrgb Em). }
+    rewrite Hm. apply Enc. exact Hm.
+Qed.
+
+(* observation (outside the property's quantifier, which has no tiles above the
+   start level beforehand): the early return leaves a stale parent in place *)
+Definition ex_stale_parent_survives : bool :=
+  match walk_callback Npy 1 no_orc (fun p f => if pos_eqb p root then Some (FLossy 1 1) else None) root with
+  | Some st' => match st' root Npy with Some _ => true | None => false end
+  | None => false
+  end.
